@@ -611,6 +611,12 @@ func dispatchStub(i *interpreter, caller *frame, fn *ssa.Function, args []value)
 				ex.stubsUsed[name+" (native model)"] = true
 				return nf(i, caller, fn, args), true
 			}
+			if o := fn.Origin(); o != nil && o != fn {
+				if nf, ok := st.Native[o.String()]; ok {
+					ex.stubsUsed[o.String()+" (native model)"] = true
+					return nf(i, caller, fn, args), true
+				}
+			}
 			if st.ZeroFns[name] {
 				ex.stubsUsed[name+" (empty body)"] = true
 				return stubZero(fn), true
